@@ -988,6 +988,16 @@ func (c *Ctx) maxFoldOver(lc *linCtx, v ssa.Value) (string, bool) {
 			}
 			return false
 		}
+		// acc = max(acc, elem)
+		if call, ok := e.(*ssa.Call); ok {
+			if bi, isB := call.Call.Value.(*ssa.Builtin); isB && bi.Name() == "max" && len(call.Call.Args) == 2 {
+				a0, a1 := call.Call.Args[0], call.Call.Args[1]
+				if (a0 == ssa.Value(acc) && isElem(a1)) || (a1 == ssa.Value(acc) && isElem(a0)) {
+					return true
+				}
+			}
+			return false
+		}
 		if ph, ok := e.(*ssa.Phi); ok && depth < 3 && loop.body[ph.Block()] {
 			for i, e2 := range ph.Edges {
 				if !okEdge(e2, ph.Block().Preds[i], depth+1) {
